@@ -717,6 +717,29 @@ func c19Gen(g *hx.Gen) {
 			})
 		}
 	}
+	// every flag combination, every kind of call (Recover, Break, nil values, Fail with a nil
+	// error): all orderings of the two steps of each call; sampled in the quick tier
+	allFlags := []string{"000", "001", "010", "011", "100", "101", "110", "111"}
+	allSets := []string{"F1,B,W", "F1,W,B", "W,B,F1", "B,W,F1", "F1,B,F2", "F1,R2,W", "F1,W,R2", "X2.7,R3,W",
+		"X2.7,Rn,W", "W,F1,Rn", "F1,Rn,F2", "F1,F2,W", "Fn,X5.7,W", "Xn.n,X5.7,W", "X5.n,F1,W", "W,W,B"}
+	for _, fl := range allFlags {
+		for _, set := range allSets {
+			multisetPerms([]byte{'a', 'b', 'c'}, []int{2, 2, 2}, func(s string) bool {
+				if g.Thorough() || g.Chance(0.2) {
+					g.Casef("pp %s %s %s", fl, set, s)
+				}
+				return !g.Done()
+			})
+		}
+		for _, set := range []string{"F1,W,B,W", "F1,R2,W,W", "X2.7,W,R3,F4", "W,F1,B,R2", "F1,F2,W,W"} {
+			multisetPerms([]byte{'a', 'b', 'c', 'd'}, []int{2, 2, 2, 2}, func(s string) bool {
+				if (g.Thorough() && g.Chance(0.25)) || g.Chance(0.01) {
+					g.Casef("pp %s %s %s", fl, set, s)
+				}
+				return !g.Done()
+			})
+		}
+	}
 	// four goroutines: sampled in the quick tier, exhaustive in the thorough one
 	for _, set := range []string{"F1,W,W,F2", "W,F1,F2,W", "F1,X2.7,W,W", "F1,F2,F3,W"} {
 		letters := []byte{'a', 'b', 'c', 'd'}
